@@ -11,13 +11,14 @@ TECHNIQUE = ('runtime monitoring: rule kinds/inheritance observed on the metamod
              'results vs reference derivation; textx_isinstance matrix over all objects x rules vs reference closure')
 RULE = ('random grammars with 2-4 common, 2-4 match (single token, multi token, regex, choice, separated repetition) and 1-4 '
         'abstract rules whose alternatives mix references to common rules, to abstract rules (chains and keyword-guarded cycles), '
-        'to match rules, base types and sequences (keyword+common, match+common, common+match, all-match); 15 (quick) / 20 '
+        'to match rules, base types and sequences (keyword+common, match+common, common+match, all-match, and sequences whose first non-match reference is another abstract rule: match+abstract, abstract+common, abstract+match); 15 (quick) / 20 '
         'derived inputs each. Checked: _tx_type of every rule; every object reachable in the model is an instance of a common '
         'rule; accept/dump equality with the reference (abstract result selection); textx_isinstance(o, R) for every object x '
         'every rule + OBJECT vs the reference closure. distinct = (grammar skeleton, input token kinds); non-trivial = the '
         'derivation passes through an abstract rule whose matched alternative is a sequence or another abstract rule')
 REQUIRED = {'grammars': 100, 'kinds_checked': 500, 'isinstance_pairs': 5000, 'abstract_results_observed': 500,
-            'abstract_cycles': 5, 'match_before_common_alternatives': 5, 'objects_checked': 1000}
+            'abstract_cycles': 5, 'match_before_common_alternatives': 5, 'objects_checked': 1000,
+            'abstract_reference_in_sequence_alternatives': 20}
 
 
 class Gen:
@@ -89,6 +90,20 @@ class Gen:
             elif c < 0.92:
                 alts.append(Seq([Ref(r.choice(self.match)), Ref(r.choice(self.match))]))
                 self.features.add('all-match-seq')
+            elif c < 0.96:
+                # sequences whose first non-match reference is another abstract rule
+                later = self.abs[i + 1:]
+                a_ref = Ref(r.choice(later)) if later else Ref(r.choice(self.abs[:i + 1]))
+                shape = r.randrange(4)
+                if shape == 0:
+                    alts.append(Seq([Ref(r.choice(self.match)), self.k(), a_ref]))
+                elif shape == 1:
+                    alts.append(Seq([self.k(), a_ref, Ref(r.choice(self.common))]))
+                elif shape == 2:
+                    alts.append(Seq([self.k(), a_ref, Ref(r.choice(self.match))]))
+                else:
+                    alts.append(Seq([Ref(r.choice(self.match)), self.k(), a_ref, Ref(r.choice(self.common))]))
+                self.features.add('abstract-ref-in-sequence')
             else:
                 alts.append(Ref(r.choice(self.common)))
         if not any(isinstance(a, Ref) and a.name in self.common for a in alts):
@@ -217,6 +232,8 @@ def _one(ctx, i, rep=None):
         ctx.count('abstract_cycles')
     if 'match-before-common' in gen.features:
         ctx.count('match_before_common_alternatives')
+    if 'abstract-ref-in-sequence' in gen.features:
+        ctx.count('abstract_reference_in_sequence_alternatives')
     kinds = RP.rule_kinds(g)
     for rl in g.rules:
         ctx.count('kinds_checked')
